@@ -943,11 +943,19 @@ def planner(
                 log.info("No range scans allowed %s", query_items)
             continue
 
+        limit = default_limit
+        if not limit:
+            # a client's limit never exceeds Config.max_limit; null means "the maximum"
+            limit = (
+                Config.max_limit
+                if query.limit is None
+                else min(query.limit, Config.max_limit)
+            )
         plan = QueryPlan(
             query_items,
             best_index,
             matches,
-            default_limit or query.limit,
+            limit,
             query.since,
             query.until,
             {},
